@@ -99,6 +99,7 @@ func fail() Step                  { return Step{K: "fail"} }
 func settleLast() []Step          { return []Step{moveLast(1), moveLast(2), moveLast(4)} }
 func crashEpoch(max uint) Step    { return Step{K: "epoch", Max: max, Crash: true} }
 func restartStep(lost bool) Step  { return Step{K: "restart", Lost: lost} }
+func l2reorg(b uint64) Step       { return Step{K: "l2reorg", B: b} }
 
 const (
 	stPending = iota
@@ -258,6 +259,22 @@ func scenarios(r *hlib.Rng) []In {
 			out = append(out, in)
 		}
 	}
+	// L2 reorg of the blocks of a certificate that went InError: the replacement is built from the new fork (another bridge
+	// takes the same deposit count); also a reorg of not yet certified blocks while a certificate is pending, a reorg the
+	// harness must refuse (it would drop settled blocks), and a reorg above the tip
+	for _, retry := range []bool{true, false} {
+		hh := &hist{r: r}
+		in := In{Retry: retry, Tag: "l2reorg-inerror"}
+		for _, ss := range [][]Step{
+			one(hh.block(0, 1, 0)), one(epoch(0)), settleLast(),
+			one(hh.block(0, 1, 0)), one(epoch(0)), one(moveLast(stInError)), one(l2reorg(2)),
+			one(hh.block(0, 1, 1)), one(status(0)), one(epoch(0)), settleLast(),
+			one(hh.block(0, 2, 0)), one(hh.block(0, 1, 0)), one(epoch(0)), one(l2reorg(5)), one(l2reorg(4)), one(hh.block(0, 1, 0)),
+			one(l2reorg(1)), one(l2reorg(9)), settleLast(), one(epoch(0)), settleLast(), one(status(0))} {
+			in.Steps = append(in.Steps, ss...)
+		}
+		out = append(out, in)
+	}
 	return out
 }
 
@@ -359,8 +376,16 @@ func walk(r *hlib.Rng, n int) In {
 					guess = next
 				}
 			}
-		case x < 94:
+		case x < 93:
 			in.Steps = append(in.Steps, move(uint64(r.Intn(4)), r.Intn(5)))
+		case x < 94: // L2 reorg near the tip (applied by the harness only if it drops no block of a live certificate)
+			nblk := 0
+			for _, st := range in.Steps {
+				if st.K == "block" {
+					nblk++
+				}
+			}
+			in.Steps = append(in.Steps, l2reorg(uint64(1+r.Intn(nblk+2))))
 		case x < 97:
 			in.Steps = append(in.Steps, restartStep(r.Intn(3) == 0))
 		default:
